@@ -547,7 +547,7 @@ func (bh *Header) AddReadGroup(rg *ReadGroup) error {
 // RemoveReadGroup removes rg from the Header and makes it
 // available to add to another Header.
 func (bh *Header) RemoveReadGroup(rg *ReadGroup) error {
-	if rg.id < 0 || int(rg.id) >= len(bh.refs) || bh.rgs[rg.id] != rg {
+	if rg.id < 0 || int(rg.id) >= len(bh.rgs) || bh.rgs[rg.id] != rg {
 		return errInvalidReadGroup
 	}
 	bh.rgs = append(bh.rgs[:rg.id], bh.rgs[rg.id+1:]...)
